@@ -487,3 +487,128 @@ def core_semantics_table(ctx, rule):
                        f'{s!r} on the HTML reference tree selects {g}; by the Selectors specification it designates {want}'
                        + (f' - {extra} are selected although they do not match (unsound)' if extra else '')
                        + (f' - {lost} match but are not selected (incomplete)' if lost else ''))
+
+
+def _rows_table(ctx, rule, title, cases, where, why):
+    """cases: [(document description, kind, spec, namespaces, [(selector, expected labels), ...])] - select() from the document."""
+    from ..e2e import batch_api
+    docs, reqs, meta = {}, [], []
+    for i, (what, kind, spec, ns, rows) in enumerate(cases):
+        doc, order, L = make_doc(spec, kind)
+        docs[i] = (doc, order)
+        for s, want in rows:
+            reqs.append((i, 'select', s, None, (('namespaces', ns),) if ns is not None else ()))
+            meta.append((i, what, s, want))
+    bad = None
+    for (i, what, s, want), got in zip(meta, batch_api(ctx, docs, reqs)):
+        order = docs[i][1]
+        g = [label(order[j]).strip('<>') for j in got[1]] if got[0] == 'ok' else f'raises {got[1]}'
+        rule.instance({'document': what, 'selector': s, 'selected': g, 'expected': want}, key=f'{title}|{what}|{s}', sample_cap=8)
+        if g != want and bad is None:
+            bad = (what, s, g, want)
+    rule.instance({'api_calls': len(reqs)}, key=f'{title}-calls')
+    rule.obligation(bad is None)
+    if bad is not None:
+        what, s, g, want = bad
+        rule.violation(f'{title} `{s}` ({what})', where, f'{s!r} on the document "{what}" selects {g}; {why} gives {want}')
+
+
+def text_table(ctx, rule):
+    """:-soup-contains / :-soup-contains-own / :empty on a tree with text split across elements, comments, CDATA, a processing
+    instruction, an iframe and elements without any text node."""
+    T = [('html', {}, [('body', {}, [('div', {'id': 't', '_label': 't'}, [
+        'ab', ('span', {'_label': 'span'}, ['cd']), ('#comment', 'zz'), 'ef', ('#cdata', 'yy'), ('#pi', 'pp'),
+        ('iframe', {'_label': 'frame'}, [('html', {}, [('body', {}, ['inner'])])]),
+        ('p', {'_label': 'pe'}, []), ('p', {'_label': 'pc'}, [('#comment', 'q')]), ('p', {'_label': 'ps'}, [('i', {'_label': 'i'}, [])]),
+        ('p', {'_label': 'pw'}, [' \n\t']), ('p', {'_label': 'pn'}, ['\u00a0'])])])])]
+    rows = [
+        ('#t:-soup-contains(abcdef)', ['t']), ('#t:-soup-contains(bcde)', ['t']), ('#t:-soup-contains(zz)', []), ('#t:-soup-contains(yy)', []),
+        ('#t:-soup-contains(pp)', []), ('#t:-soup-contains(inner)', []), ('#t:-soup-contains(abx, cd)', ['t']),
+        ('#t:-soup-contains-own(ab)', ['t']), ('#t:-soup-contains-own(abcd)', []), ('#t:-soup-contains-own(cd)', []), ('#t:-soup-contains-own(abef)', []),
+        ('span:-soup-contains-own(cd)', ['span']), ('#t:-soup-contains-own(zz, ef)', ['t']),
+        ('#t:-soup-contains-own("")', ['t']), ('#t > p:-soup-contains-own("")', ['pw', 'pn']), ('#t > p:-soup-contains-own("zzz", "")', ['pw', 'pn']),
+        ('#t > p:-soup-contains("")', ['pe', 'pc', 'ps', 'pw', 'pn']), ('i:-soup-contains-own("")', []), ('iframe:-soup-contains-own("")', []),
+        ('#t > p:empty', ['pe', 'pc', 'pw']), ('#t > :empty', ['pe', 'pc', 'pw']), ('i:empty', ['i']), ('#t:contains(abcdef)', ['t']),
+        ('iframe:-soup-contains(inner)', []), ('body:-soup-contains(abcdef)', ['body']),
+    ]
+    rows = [(s, [('body' if w == 'body' else w) for w in want]) for s, want in rows]
+    _rows_table(ctx, rule, 'text', [('text nodes, comments, CDATA, iframe', 'html', T, None, rows)], 'soupsieve/css_match.py (match_contains / match_empty)',
+                'the definition (text nodes among the descendants in document order / one text node that is a direct child; comments, CDATA, '
+                'processing instructions and iframe content are not text)')
+
+
+def namespace_table(ctx, rule):
+    """Type and attribute selectors with namespace prefixes on an XML tree whose elements and attributes live in different
+    namespaces, under several prefix maps."""
+    from ..tables import NSKey
+    X, Y = 'urn:x', 'urn:y'
+    T = [('root', {'_label': 'root'}, [
+        ('e', {'_ns': X, '_label': 'ex', 'a': '1', NSKey('x:b', X, 'b'): '2'}, []),
+        ('e', {'_ns': Y, '_label': 'ey', NSKey('y:a', Y, 'a'): '3'}, []),
+        ('e', {'_label': 'en', 'a': '4'}, []),
+        ('f', {'_ns': X, '_label': 'fx'}, [('e', {'_ns': X, '_label': 'ex2', NSKey('q:a', Y, 'a'): '5'}, [])])])]
+    m1 = {'p': X, 'q': Y}
+    rows1 = [('p|e', ['ex', 'ex2']), ('q|e', ['ey']), ('*|e', ['ex', 'ey', 'en', 'ex2']), ('|e', ['en']), ('e', ['ex', 'ey', 'en', 'ex2']),
+             ('z|e', []), ('p|*', ['ex', 'fx', 'ex2']), ('|*', ['root', 'en']),
+             ('[p|b]', ['ex']), ('[q|b]', []), ('[p|a]', []), ('[q|a]', ['ey', 'ex2']), ('[a]', ['ex', 'en']), ('[|a]', ['ex', 'en']),
+             ('[*|a]', ['ex', 'ey', 'en', 'ex2']), ('[*|b]', ['ex']), ('[z|a]', []), ('[p|b="2"]', ['ex']), ('[q|a="5"]', ['ex2']),
+             ('p|f > p|e', ['ex2']), ('p|e[q|a]', ['ex2']), (':not(p|e)', ['root', 'ey', 'en', 'fx']), (':is(q|e, |e)', ['ey', 'en'])]
+    m2 = {'': X, 'q': Y}
+    rows2 = [('e', ['ex', 'ex2']), ('*', ['ex', 'fx', 'ex2']), ('*|e', ['ex', 'ey', 'en', 'ex2']), ('|e', ['en']), ('q|e', ['ey']), ('[a]', ['ex']),
+             (':not(e)', ['fx']), ('*|*:not(e)', ['root', 'ey', 'en', 'fx']), ('f e', ['ex2']), (':is(e)', ['ex', 'ex2'])]
+    _rows_table(ctx, rule, 'namespace', [('mixed namespaces, map {p: urn:x, q: urn:y}', 'xml', T, m1, rows1),
+                                         ('mixed namespaces, default namespace urn:x', 'xml', T, m2, rows2)],
+                'soupsieve/css_match.py (match_namespace / match_attribute_name)',
+                'comparing the namespace URI of the element / attribute with the URI the prefix is mapped to')
+
+
+def lang_pipeline_table(ctx, rule):
+    """:lang() through the whole pipeline on XHTML and XML flavours (attribute names are case-sensitive there, xml:lang counts in
+    XML) and on HTML with a content-language pragma."""
+    from ..tables import NSKey
+    XMLNS = 'http://www.w3.org/XML/1998/namespace'
+    TX = [('html', {'lang': 'en', '_label': 'root'}, [('body', {}, [
+        ('div', {'LANG': 'fr', '_label': 'shout'}, [('p', {'_label': 'p1'}, [])]),
+        ('div', {'lang': 'de-CH', '_label': 'de'}, [('p', {'_label': 'p2'}, []), ('p', {'lang': '', '_label': 'p3'}, [('b', {'_label': 'b'}, [])])])])])]
+    rows_x = [('p:lang(en)', ['p1']), ('p:lang(fr)', []), ('p:lang(de)', ['p2']), ('p:lang("*-ch")', ['p2']), ('p:lang("")', ['p3']), ('b:lang("")', ['b']),
+              ('b:lang(de)', []), ('div:lang(en)', ['shout']), (':lang("de-*")', ['de', 'p2'])]
+    TM = [('doc', {NSKey('xml:lang', XMLNS, 'lang'): 'de', 'lang': 'en', '_label': 'root'}, [('a', {'_label': 'a'}, []), ('b', {'lang': 'fr', '_label': 'b'}, [])])]
+    rows_m = [('a:lang(de)', ['a']), ('a:lang(en)', []), ('b:lang(fr)', []), ('b:lang(de)', ['b'])]
+    TH = [('html', {'_label': 'root'}, [('head', {}, [('meta', {'http-equiv': 'Content-Language', 'content': 'es'}, [])]),
+                                        ('body', {}, [('p', {'_label': 'p'}, []), ('p', {'lang': 'pt', '_label': 'q'}, [])])])]
+    rows_h = [('p:lang(es)', ['p']), ('p:lang(pt)', ['q']), ('body:lang(es)', ['body']), ('p:lang(en)', [])]
+    _rows_table(ctx, rule, 'lang', [('XHTML (XML parser), LANG next to lang', 'xhtml', TX, None, rows_x), ('XML, xml:lang next to lang', 'xml', TM, None, rows_m),
+                                    ('HTML, content-language pragma', 'html', TH, None, rows_h)],
+                'soupsieve/css_match.py (match_lang / extended_language_filter)',
+                'the nearest lang attribute (xml:lang in XML that is not XHTML; attribute names are case-sensitive in XML trees), else the '
+                'content-language pragma, filtered by RFC 4647')
+
+
+def state_pipeline_table(ctx, rule):
+    """:dir() with invalid dir values on the way to the first strong character, radio groups in nested forms, :default,
+    :placeholder-shown and the partition laws on one form tree (HTML)."""
+    HE = 'אב'
+    TD = [('html', {'_label': 'root'}, [('body', {}, [
+        ('div', {'dir': 'auto', '_label': 'auto1'}, [('span', {'dir': '', '_label': 's1'}, [HE]), ' latin']),
+        ('div', {'dir': 'auto', '_label': 'auto2'}, [('span', {'dir': 'bogus', '_label': 's2'}, [HE]), ' latin']),
+        ('div', {'dir': 'auto', '_label': 'auto3'}, [('span', {'dir': 'ltr', '_label': 's3'}, [HE]), ' latin']),
+        ('div', {'dir': 'auto', '_label': 'auto4'}, [('span', {'dir': 'RTL', '_label': 's4'}, ['abc']), ' ' + HE]),
+        ('div', {'dir': 'rtl', '_label': 'r'}, [('p', {'_label': 'rp'}, []), ('p', {'dir': 'nope', '_label': 'rq'}, [])]),
+        ('bdi', {'_label': 'bdi'}, [HE])])])]
+    rows_d = [('div:dir(rtl)', ['auto1', 'auto2', 'auto4', 'r']), ('div:dir(ltr)', ['auto3']), ('span:dir(rtl)', ['s1', 's2', 's4']), ('span:dir(ltr)', ['s3']),
+              ('p:dir(rtl)', ['rp', 'rq']), ('bdi:dir(rtl)', ['bdi']), ('html:dir(ltr)', ['root'])]
+    TF = [('html', {}, [('body', {}, [
+        ('form', {'_label': 'outer'}, [('input', {'type': 'radio', 'name': 'g', '_label': 'o1'}, []), ('input', {'type': 'submit', '_label': 'sub0'}, []),
+                                       ('form', {'_label': 'inner'}, [('input', {'type': 'radio', 'name': 'g', 'checked': '', '_label': 'i1'}, []),
+                                                                      ('input', {'type': 'radio', 'name': 'g', '_label': 'i2'}, [])]),
+                                       ('input', {'type': 'submit', '_label': 'sub1'}, []), ('button', {'_label': 'sub2'}, ['b'])]),
+        ('input', {'type': 'radio', 'name': 'g', '_label': 'free'}, []),
+        ('input', {'type': 'text', 'placeholder': 'x', '_label': 'ph'}, []), ('input', {'type': 'text', 'placeholder': 'x', 'value': 'v', '_label': 'phv'}, []),
+        ('input', {'type': 'text', 'placeholder': '', '_label': 'ph0'}, []),
+        ('progress', {'_label': 'prog'}, []), ('input', {'type': 'checkbox', 'indeterminate': '', '_label': 'ind'}, [])])])]
+    rows_f = [(':indeterminate', ['o1', 'free', 'prog', 'ind']), (':checked', ['i1']), (':default', ['sub0', 'i1']), (':placeholder-shown', ['ph']),
+              ('input:enabled', ['o1', 'sub0', 'i1', 'i2', 'sub1', 'free', 'ph', 'phv', 'ph0', 'ind']), (':disabled', [])]
+    _rows_table(ctx, rule, 'state', [('dir=auto with invalid dir values below', 'html', TD, None, rows_d), ('nested forms and radio groups', 'html', TF, None, rows_f)],
+                'soupsieve/css_match.py (match_dir / find_bidi / match_indeterminate / match_default / match_placeholder_shown)',
+                'the HTML Standard (directionality of dir=auto skips only children whose dir attribute is in a defined state; a radio group is the '
+                'same-named radio buttons with the same form owner)')
